@@ -715,6 +715,10 @@ func init() {
 			}
 		}
 	}
+	replayers["gotest-fresh"] = func(v violation, tmp string) (bool, string) {
+		what, ran := c18GoTest(tmp)
+		return ran && what != "", what
+	}
 	replayers["floatbits"] = func(v violation, tmp string) (bool, string) {
 		w, _ := strconv.Atoi(v.Params["w"])
 		e, _ := strconv.Atoi(v.Params["e"])
@@ -1454,6 +1458,16 @@ func init() {
 			if what != "" {
 				m.violate(violation{"C18", "rune-table", what, map[string]string{"tables": fmt.Sprint(nt)}})
 			}
+		}
+		// fresh seeds for every run of a check, through `go test`: a MakeCheck value run twice, Check called twice
+		if what, ran := c18GoTest(tmp); ran {
+			m.tag("go-test-fresh-seeds")
+			m.eval("go-test-fresh-seeds", true)
+			if what != "" {
+				m.violate(violation{"C18", "gotest-fresh", what, map[string]string{"how": "go test without -rapid.seed in a scratch module: a package-level MakeCheck value used by two subtests, Check called twice"}})
+			}
+		} else {
+			m.tag("go-test-unavailable:" + what)
 		}
 		// the public full-range generator of every integer kind hits both ends of its Go type
 		kindEdges(r, m)
